@@ -558,6 +558,17 @@ func (r *pRun) bound() int64 {
 // inflate the number).
 func (r *pRun) sampleUn() int64 {
 	u := r.accN.Load() - r.ansN.Load()
+	if u > r.bound() {
+		// over the bound: make sure it is not a receiver that lags behind; under a stall the number can
+		// only come down to its true value
+		for i := 0; i < 5; i++ {
+			time.Sleep(60 * time.Millisecond)
+			r.pollBuffered()
+			if v := r.accN.Load() - r.ansN.Load(); v < u {
+				u = v
+			}
+		}
+	}
 	r.mu.Lock()
 	if u > r.peakUn {
 		r.peakUn = u
